@@ -268,3 +268,39 @@ n('C01', 'solve: exit status via conditional expression', SOLVER,
   "    exit_status = 0 if var.exit_message == 'CONVERGED' else 1")
 n('C01', 'multigrid: residual stored through a second local', SOLVER,
   "    var.l2 = l2_last\n", "    final = l2_last\n    var.l2 = final\n")
+
+# ------------------------------------------------------------------- C12
+m('C12', '_bcompute: tolerance line removed', SIMS,
+  "            data['solver_opts']['tol'] = self.tol_gradient\n            return self._data_or_file('bfield', source, freq, data)",
+  "            return self._data_or_file('bfield', source, freq, data)", 'C12.OW4')
+m('C12', '_compute: forward tolerance uses tol_gradient', SIMS,
+  "            data['solver_opts']['tol'] = self.tol_forward",
+  "            data['solver_opts']['tol'] = self.tol_gradient", 'C12.OW4')
+m('C12', 'clean: forgets _misfit', SIMS,
+  "            for name in ['_gradient', '_misfit']:",
+  "            for name in ['_gradient']:", 'C12.OW3')
+m('C12', 'clean: glob misses gfield files', SIMS,
+  "glob('[ebg]field_*.h5')", "glob('[eb]field_*.h5')", 'C12.OW3')
+m('C12', 'jtvec: gradient not reset after use (defect F4 back)', SIMS,
+  "        self.data.residual[...] = residual\n        self._gradient = None\n",
+  "        self.data.residual[...] = residual\n", 'C12.OW1')
+m('C12', 'jtvec: residual not restored', SIMS,
+  "        self.data.residual[...] = residual\n        self._gradient = None\n",
+  "        self._gradient = None\n", 'C12.OW1')
+m('C12', 'compute(observed): misfit cache kept (defect F5 back)', SIMS,
+  "            # New observed data: reset everything that depends on them.\n            self._misfit = None\n",
+  "            # New observed data: reset everything that depends on them.\n",
+  'C12.OW2')
+m('C12', 'copy: shallow', SIMS,
+  "return self.from_dict(self.to_dict(what, True))",
+  "return self.from_dict(self.to_dict(what, False))", 'C12.OW5')
+m('C12', 'from_dict: solver_opts not copied', SIMS,
+  "        cls_inp['solver_opts'] = cls_inp['solver_opts'].copy()\n", "", 'C12.OW5')
+m('C12', 'to_dict: tolerance not restored', SIMS,
+  "        self.solver_opts['tol'] = self.tol_forward\n", "", 'C12.OW4')
+n('C12', 'jtvec: reset order changed', SIMS,
+  "        self.data.residual[...] = residual\n        self._gradient = None\n",
+  "        self._gradient = None\n        self.data.residual[...] = residual\n")
+n('C12', 'clean: list order', SIMS,
+  "            for name in ['_gradient', '_misfit']:",
+  "            for name in ['_misfit', '_gradient']:")
